@@ -200,4 +200,91 @@ theorem ingrRefChecks_text (env : Env) (input : Str) (li : Loc (PIngredient α))
     simp [A_bind, A_pure, A_ite, awarn, A_modify, apanic, adiag, hq, ht, bind, StateT.bind, pure, StateT.pure,
       modify, modifyGet, MonadStateOf.modifyGet, StateT.modifyGet]
 
+/-! ### the checks of a cookware reference -/
+
+section cwparts
+variable (input : Str) (lc : Loc (PCookware α)) (cw : Cookware (ScalableValue α))
+  (defn : Cookware (ScalableValue α)) (defLoc : Loc (PCookware α))
+
+def crc1 : A α Unit := if defn.relation.isReference then apanic "definition is a reference" else pure ()
+
+def crcNote : A α Unit :=
+  match lc.val.note with
+  | some n => noteReferenceError input n.span defLoc.span (defLoc.val.note.map (·.span))
+  | none => pure ()
+
+def crcDefinedInStep : Bool :=
+  match defn.relation with
+  | .definition _ b => b
+  | .reference _ => true
+
+def crcQty : A α Unit :=
+  if defn.quantity.isSome && cw.quantity.isSome && !crcDefinedInStep defn then
+    aerr "conflicting-ref-quantity" [(lc.val.quantity.map (·.span)).getD ⟨0, 0⟩, defLoc.span]
+  else pure ()
+
+def crcText : A α Unit :=
+  match cw.quantity, defn.quantity with
+  | some rq, some dq =>
+    let refText := rq.val.isText
+    let defText := dq.val.isText
+    if refText != defText then do
+      let rl := (lc.val.quantity.map (·.span)).getD ⟨0, 0⟩
+      let dl := (defLoc.val.quantity.map (·.span)).getD ⟨0, 0⟩
+      if defLoc.val.quantity.isNone then apanic "definition location quantity unwrap"
+      if refText then awarn "text-value-in-ref" [rl, dl] else awarn "text-value-in-ref" [dl, rl]
+    else pure ()
+  | _, _ => pure ()
+
+theorem cwRefChecks_parts (s : Col α) :
+    cwRefChecks input lc cw defn defLoc s =
+      (crc1 defn >>= fun _ => crcNote input lc defLoc >>= fun _ =>
+        crcQty lc cw defn defLoc >>= fun _ => crcText lc cw defn defLoc) s := by
+  unfold cwRefChecks crc1 crcNote crcQty crcText crcDefinedInStep
+  rcases hrel : defn.relation with ⟨rf, b⟩ | t <;>
+    cases h3 : cw.quantity <;> cases h4 : lc.val.note <;>
+    cases h5 : defn.quantity.isSome <;> (try cases b) <;>
+    simp [bind, StateT.bind, pure, StateT.pure, hrel, h3, h4, h5, ComponentRelation.isReference] <;> rfl
+
+theorem DG.crc1 : DG (crc1 (α := α) defn) := by unfold Cook.crc1; dg_auto
+theorem DG.crcNote : DG (crcNote (α := α) input lc defLoc) := by unfold Cook.crcNote; dg_auto
+theorem DG.crcQty : DG (crcQty (α := α) lc cw defn defLoc) := by unfold Cook.crcQty; dg_auto
+theorem DG.crcText : DG (crcText (α := α) lc cw defn defLoc) := by unfold Cook.crcText; dg_auto
+
+end cwparts
+
+/-- what the checks of a resolved cookware reference report -/
+theorem cwRefChecks_reports (input : Str) (lc : Loc (PCookware α)) (cw : Cookware (ScalableValue α))
+    (defn : Cookware (ScalableValue α)) (defLoc : Loc (PCookware α)) (s : Col α) :
+    (∃ l, (cwRefChecks input lc cw defn defLoc s).2.diags.toList = s.diags.toList ++ l) ∧
+    (∀ n, lc.val.note = some n →
+      adiag .error "note-in-reference" [noteRefSpan input n.span,
+        (defLoc.val.note.map (·.span)).getD (Span.pos defLoc.span.stop)] ∈
+        (cwRefChecks input lc cw defn defLoc s).2.diags.toList) ∧
+    (defn.quantity.isSome = true → cw.quantity.isSome = true → crcDefinedInStep defn = false →
+      adiag .error "conflicting-ref-quantity" [(lc.val.quantity.map (·.span)).getD ⟨0, 0⟩, defLoc.span] ∈
+        (cwRefChecks input lc cw defn defLoc s).2.diags.toList) := by
+  have hparts := cwRefChecks_parts input lc cw defn defLoc s
+  have d1 := DG.crc1 (α := α) defn
+  have d2 := DG.crcNote (α := α) input lc defLoc
+  have d3 := DG.crcQty (α := α) lc cw defn defLoc
+  have d4 := DG.crcText (α := α) lc cw defn defLoc
+  rw [hparts]
+  refine ⟨(DG.bind d1 (fun _ => DG.bind d2 (fun _ => DG.bind d3 (fun _ => d4)))).out s, ?_, ?_⟩
+  · intro n hn
+    simp only [A_bind]
+    refine d4.mem (d3.mem ?_)
+    have e : crcNote (α := α) input lc defLoc = noteReferenceError input n.span defLoc.span
+        (defLoc.val.note.map (·.span)) := by unfold crcNote; rw [hn]
+    rw [e, noteReferenceError_run]
+    exact mem_push_self _ _
+  · intro h1 h2 h3
+    simp only [A_bind]
+    refine d4.mem ?_
+    have e : crcQty (α := α) lc cw defn defLoc =
+        aerr "conflicting-ref-quantity" [(lc.val.quantity.map (·.span)).getD ⟨0, 0⟩, defLoc.span] := by
+      unfold crcQty; simp [h1, h2, h3]
+    rw [e]
+    exact mem_push_self _ _
+
 end Cook
